@@ -72,6 +72,8 @@ static inline void BlocksBimapM_insert(BlocksBimapM *b, BiRel rel)
 //@tu src/pomerol/StatesClassification.cpp
 //@function Pomerol::BlockNumber::operator<(Pomerol::BlockNumber const&) const as BlockNumber_lt
 //@end
+//@function Pomerol::BlockNumber::operator==(Pomerol::BlockNumber const&) const as BlockNumber_eq
+//@end
 //@tu src/pomerol/FieldOperator.cpp
 
 #define EXPECT ((0 <= g_r && g_r < self->S.nblocks && __CPROVER_uninterpreted_mapsto(g_r) >= 0) ? 1 : 0)
